@@ -1,6 +1,7 @@
 import TFV.Properties.EA
 import TFV.Properties.Src.Engine
 import TFV.Properties.Src.Greedy
+import TFV.Properties.Src.Elitism
 #print axioms TFV.EA.C02_best_monotone
 #print axioms TFV.EA.C02_elite_present
 #print axioms TFV.EA.C02_slot_consistent
@@ -9,3 +10,4 @@ import TFV.Properties.Src.Greedy
 #print axioms TFV.SrcTie.C02_src_update_monotone
 #print axioms TFV.SrcTie.C02_src_de_greedy
 #print axioms TFV.SrcTie.C02_src_de_greedy_slot
+#print axioms TFV.SrcTie.C02_src_evaluation_step
